@@ -103,7 +103,7 @@ struct traced_map
             bool unit = true;
             for (T x : rn) unit = unit && (x >= T() && x < T(1));
             if (c->log_calls)
-                ev("MapCoord").i("ch", (long long) ch).a("enabled", en).i("rn", ids().id(hexvec(rn))).i("caddr", addr_id(&co))
+                ev("MapCoord").i("self", addr_id(this)).i("ch", (long long) ch).a("enabled", en).i("rn", ids().id(hexvec(rn))).i("caddr", addr_id(&co))
                     .i("daddr", addr_id(&de)).i("unitOK", unit ? 1 : 0).emit();
             for (std::size_t i = 0; i != co.size(); ++i) co[i] = rn[i % rn.size()];
             // a map may fill the densities already now (the documentation allows it): leave a recognisable pattern
@@ -112,7 +112,7 @@ struct traced_map
             return T(1);
         }
         if (c->log_calls)
-            ev("MapDens").i("ch", (long long) ch).i("rn", ids().id(hexvec(rn))).i("caddr", addr_id(&co))
+            ev("MapDens").i("self", addr_id(this)).i("ch", (long long) ch).i("rn", ids().id(hexvec(rn))).i("caddr", addr_id(&co))
                 .i("csum", ids().id("c:" + hexvec(co))).i("daddr", addr_id(&de)).i("dsum", ids().id("d:" + hexvec(de))).emit();
         // region of the first coordinate selects a common scale 1/2, 1, 2
         T y = co[0];
